@@ -466,8 +466,10 @@ func canonJSON(s string) any {
 	return v
 }
 
-// sameOutcome compares two outcomes: invocation logs, status, headers of interest, body (as JSON when it parses; 5xx
-// bodies carry stack traces and are compared by status only).
+// sameOutcome compares two outcomes: invocation logs, status, headers of interest, body (as JSON when it parses). Error
+// responses (status >= 400) are compared by status and headers only: their message text names whichever offending query
+// parameter the server's map iteration meets first (it differs between two identical untunnelled requests as well), and
+// 5xx bodies carry stack traces.
 func sameOutcome(a, b outcome) string {
 	if a.Failure != "" || b.Failure != "" {
 		if a.Failure != "" && b.Failure != "" {
@@ -484,7 +486,7 @@ func sameOutcome(a, b outcome) string {
 	if !reflect.DeepEqual(a.Headers, b.Headers) {
 		return fmt.Sprintf("response headers differ: untunnelled %v tunnelled %v", a.Headers, b.Headers)
 	}
-	if a.Status < 500 && !reflect.DeepEqual(canonJSON(a.Body), canonJSON(b.Body)) {
+	if a.Status < 400 && !reflect.DeepEqual(canonJSON(a.Body), canonJSON(b.Body)) {
 		return fmt.Sprintf("response body differs: untunnelled %s tunnelled %s", clipS(a.Body), clipS(b.Body))
 	}
 	return ""
@@ -612,7 +614,7 @@ func TestC14Router(t *testing.T) {
 		c.RealHop = rapid.IntRange(0, 3).Draw(rt, "real_hop") == 0
 		if name, msg := checkRouter(rec, c); msg != "" {
 			rec.Violation(name, msg, c)
-			rt.Fatalf("%s", msg)
+			rt.Fatalf("%s", name) // constant text: rapid only keeps shrinking while the failure message stays the same
 		}
 	})
 }
@@ -852,7 +854,7 @@ func runMalformed(t *testing.T, class string) {
 		c.RealHop = rapid.IntRange(0, 3).Draw(rt, "real_hop") == 0
 		if name, msg := checkMalformed(rec, c); msg != "" {
 			rec.Violation(name, msg, c)
-			rt.Fatalf("%s", msg)
+			rt.Fatalf("%s", name) // constant text: rapid only keeps shrinking while the failure message stays the same
 		}
 	})
 }
